@@ -17,3 +17,5 @@ Definition tf_unset_ok := unset_tf_ok pint0_itoa itoa_digits_fact.
 Definition tf_unset_frame := unset_tf_frame pint0_itoa itoa_digits_fact.
 Definition tf_unset_absent := unset_tf_absent pint0_itoa itoa_digits_fact.
 Definition tf_unset_oob := unset_tf_oob pint0_itoa itoa_digits_fact.
+Definition tf_set_slot_frame := set_tf_slot_frame pint0_itoa itoa_digits_fact.
+Definition tf_set_other_paths := set_tf_other_paths pint0_itoa itoa_digits_fact.
